@@ -183,7 +183,10 @@ def _cases(draw):
         del form["entities"]
         meta["bad"] = ["no-entities-sheet"] if any("save_to" in n["c"] for n, _ in model.walk(form["nodes"])) else []
         meta["no_sheet"] = True
-    if g.p("_", 0.15):
+    if form.get("entities") and g.p("_", 0.15):
+        # a dict workbook whose entities rows keep every column, "" where nothing was typed: an empty cell is no cell
+        form["empty_cells"] = {"entities": list(COLS)}
+    elif g.p("_", 0.15):
         # the workbook as a spreadsheet file; the sheets other than survey may be hidden in it (a hidden sheet is still a sheet)
         form["carrier"] = {"fmt": g.pick(["xlsx", "xlsx", "xls"]), "seed": g.integer(0, 9999)}
     return {"form": form, "meta": meta}
